@@ -75,6 +75,11 @@ def run(tier: str) -> int:
     ck.note("scenarios_by_part", {p: sum(1 for g in groups if g[0]["part"] == p) for p in ("ff", "st", "cb", "tf")})
     ck.note("scenarios_with_choice", sum(1 for g in groups if len(g[1]) > 1))
     ck.note("model_invariants", rc.C41_INVS)
+    ck.note("apis_exercised", ["from_future (concurrent.futures.Future, asyncio future, asyncio Task)", "start_async", "start", "to_async "
+                               "(TestScheduler, VirtualTimeScheduler, HistoricalScheduler, ImmediateScheduler, default TimeoutScheduler threads)",
+                               "from_callback (with / without mapper)", "ops.to_future(ctor) / to_future() / Observable.to_future(ctor)",
+                               "run(source, scheduler) / Observable.run() (Immediate, CurrentThread, default NewThreadScheduler)",
+                               "await observable / await observable.pipe(to_future())"])
     rnd = random.Random(ck.seed)
     for p in ("ff", "st", "cb", "tf"):
         gp = [g for g in groups if g[0]["part"] == p]
